@@ -6,6 +6,7 @@ import ast
 
 from ..cfg import CFG, Node, walk_no_nested
 from ..dataflow import bind_call, fmt_origin, origins
+from ..decide import Decider, expand_expr
 from ..loader import AnalysisError, FuncInfo, site_packages
 from ..report import Ctx
 from .common import all_guards, call_name, direct_guards, norm, reachable_functions, where
@@ -364,7 +365,11 @@ def check_usage_errors(ctx: Ctx) -> None:
         no_input = any(lab == "T" and _is_not_files(prog, main, b) for b, lab in guards)
         if in_handler is not None:
             n_ret += 1
-            ok = isinstance(val, ast.Constant) and isinstance(val.value, int) and val.value != 0
+            # every value the return expression can take (conditional expressions and temporaries read through)
+            dec = Decider(prog, lambda _leaf, _al: None)
+            dec._cur = (main, r)
+            vals = dec.ev(main, expand_expr(prog, main, val, r), {}, {}, frozenset(), 0) if val is not None else frozenset({None})
+            ok = bool(vals) and all(isinstance(v, int) and not isinstance(v, bool) and v != 0 for v in vals)
             ctx.ob("R-USAGE", f"{main.qual} :: except {in_handler} -> return", ok,
                    f"an error from the run must give a non-zero exit status, returns {norm(val) if val else None}", where(main, r))
         elif no_input:
@@ -384,7 +389,7 @@ def check_usage_errors(ctx: Ctx) -> None:
         t = _enclosing_try(cn.ast)
         if t is not None:
             handlers = [ast.unparse(h.type) if h.type is not None else "<bare>" for h in t.handlers]
-    ctx.ob("R-USAGE", f"{main.qual} :: handlers around the run", "ValueError" in handlers,
+    ctx.ob("R-USAGE", f"{main.qual} :: handlers around the run", bool({"ValueError", "Exception", "BaseException", "<bare>"} & set(handlers)),
            f"usage errors raised as ValueError must be caught and mapped to an exit status; handlers: {handlers}", where(main, main.node))
     # (b) reformat_files: a usage error that the per-file callee raises must be pre-checked before the loop,
     #     otherwise earlier files are already rewritten when it fires
